@@ -5,7 +5,7 @@ import tempfile
 
 import numpy
 
-from .. import fixtures, monitor, simlog
+from .. import fixtures, gridcases, monitor, simlog
 from ..core import digest, close, scratch_dir
 from . import c12
 
@@ -21,7 +21,7 @@ META = {
                     "reference gridding by construction (events strictly inside cells and magnitude bins)", "tolerance 1e-9*(1+|x|)"],
     "deciding": ["e2e:N", "e2e:S", "e2e:M", "e2e:PL", "e2e:RM", "e2e:MLL", "post:_compute_likelihood", "post:MLL_score", "ties:twin-catalogs"],
 }
-META["added"] = 'Added: MLL full_calculation, events far above the last magnitude edge, file-streamed forecasts with filters, observations gridding exactly like a synthetic catalog (bit-for-bit ties, monitor ties:twin-catalogs). observations with events below the lowest magnitude edge. catalogs bound to another region object, magnitudes one ulp below an edge. spatially filtered in-memory forecasts with events outside along one axis.'
+META["added"] = 'Added: synthetic catalogs that were gridded on another region before the forecast got them. MLL full_calculation, events far above the last magnitude edge, file-streamed forecasts with filters, observations gridding exactly like a synthetic catalog (bit-for-bit ties, monitor ties:twin-catalogs). observations with events below the lowest magnitude edge. catalogs bound to another region object, magnitudes one ulp below an edge. spatially filtered in-memory forecasts with events outside along one axis.'
 MANIFEST = {
     "technique": "independent re-implementation of the documented statistics as oracle over the real tests' results; runtime post-conditions on _compute_likelihood / cumulative_square_diff / MLL_score; RNG boundary log (numpy.random.choice) aligning each resampled test-distribution entry with its actual resample; status/None signalling checked on empty and undersampled observations",
     "level_text": "For each generated catalog forecast and observation the six public tests run for real; every test-distribution entry, observed statistic, quantile pair and status is compared with an independent implementation of the documented definition fed by reference gridding, including the explicit signalling of undefined statistics (empty observation -> not-valid / None; empty synthetic catalogs skipped where undefined; events in never-sampled cells excluded and flagged 'undersampled').",
@@ -126,6 +126,10 @@ def build(fc, source, tmp):
             other = CartesianGrid2D.from_origins(reg.origins()[::-1].copy(), dh=reg.dh, magnitudes=numpy.asarray(mags) + 0.05)
             for c_ in cats:
                 c_.region = other
+                if (len(fc["cats"]) // 2) % 2 == 0:
+                    # ... and were gridded there (they were part of another forecast's evaluation) before this forecast got them
+                    gridcases._quiet(c_.spatial_counts)
+                    gridcases._quiet(c_.spatial_magnitude_counts)
         f = CatalogForecast(catalogs=cats, region=reg, n_cat=len(cats), name="cf")
     else:
         path = os.path.join(tmp, "fc_%s.csv" % source)
